@@ -42,6 +42,8 @@ class State:
         self.done = False
         self.depth = 0
         self.loops = []
+        self.ver = {}        # name -> assignment counter
+        self.decided = {}    # test text -> (outcome, versions of its names)
 
     def fork(self):
         s = State(self.lin.copy())
@@ -51,6 +53,8 @@ class State:
         s.via_except = self.via_except
         s.depth = self.depth
         s.loops = list(self.loops)
+        s.ver = dict(self.ver)
+        s.decided = dict(self.decided)
         return s
 
     def stores(self, kinds=('store', 'augstore')):
@@ -135,6 +139,7 @@ class SymX:
             self._record_calls(st.value, s, st)
             v = lin.form(st.value)
             if isinstance(st.target, ast.Name):
+                s.ver[st.target.id] = s.ver.get(st.target.id, 0) + 1
                 old = lin.form(st.target)
                 lin.exec_stmt(st)
                 s.events.append(Event('augname', st, st.target.id, v, op=type(st.op).__name__,
@@ -146,9 +151,24 @@ class SymX:
         if isinstance(st, ast.If):
             self._record_calls(st.test, s, st)
             d = self.decide(st.test, s) if self.decide else None
+            # the same pure test on unchanged names has the same outcome as earlier on this path
+            pure = _pure_names(st.test)
+            key = None
+            if d is None and pure is not None:
+                key = src(st.test)
+                vers = tuple(s.ver.get(n, 0) for n in pure)
+                prev = s.decided.get(key)
+                if prev is not None and prev[1] == vers:
+                    d = prev[0]
             outs = []
+            if key is not None and d is None:
+                vers = tuple(s.ver.get(n, 0) for n in pure)
+                # record on both forks below
+                s.decided[key] = (False, vers)
             if d is None or d is True:
                 a = s.fork() if d is None else s
+                if key is not None and d is None:
+                    a.decided[key] = (True, tuple(a.ver.get(n, 0) for n in pure))
                 a.conds.append((st.test, True))
                 a.events.append(Event('cond', st, src(st.test), True, depth=a.depth))
                 outs += self._block(st.body, [a])
@@ -166,6 +186,7 @@ class SymX:
             # loop variables become opaque atoms
             for n in ast.walk(st.target):
                 if isinstance(n, ast.Name):
+                    s.ver[n.id] = s.ver.get(n.id, 0) + 1
                     lin.env[n.id] = Form.atom(n.id)
                     s.tup.pop(n.id, None)
             # names assigned in the body are unknown at loop entry only if
@@ -252,6 +273,7 @@ class SymX:
     def _assign_target(self, t, f, tupforms, s, st):
         lin = s.lin
         if isinstance(t, ast.Name):
+            s.ver[t.id] = s.ver.get(t.id, 0) + 1
             v = getattr(st, 'value', None)
             if self.container_identity and isinstance(v, (ast.List, ast.Dict, ast.Set, ast.ListComp, ast.DictComp, ast.SetComp)) \
                     and isinstance(st, ast.Assign) and len(st.targets) >= 1 and not isinstance(st.targets[0], (ast.Tuple, ast.List)):
@@ -273,6 +295,20 @@ class SymX:
         else:
             s.events.append(Event('store', st, self._target_text(t, lin), f, node=t, depth=s.depth,
                                   extra=tupforms))
+
+
+def _pure_names(test):
+    """names of a test made only of names, constants, not/and/or and comparisons -- else None"""
+    names = []
+    for n in ast.walk(test):
+        if isinstance(n, ast.Name):
+            names.append(n.id)
+        elif isinstance(n, (ast.Constant, ast.BoolOp, ast.UnaryOp, ast.Compare, ast.And, ast.Or, ast.Not, ast.Load,
+                            ast.Eq, ast.NotEq, ast.Lt, ast.LtE, ast.Gt, ast.GtE, ast.Is, ast.IsNot, ast.In, ast.NotIn)):
+            continue
+        else:
+            return None
+    return sorted(set(names)) if names else None
 
 
 def _calls_in(node):
